@@ -505,6 +505,8 @@ class Interp:
             if fi is None:
                 raise Unsupported('super().%s not found' % name)
             return VFunc('method', fi=fi, self=base.self, recv_cls=base.recv_cls)
+        if isinstance(base, VFunc) and base.kind == 'extern':
+            return VFunc('extern', name=base.name + '.' + name)
         if isinstance(base, VAny):
             return VFunc('opaque_attr', base=base, name=name)
         if isinstance(base, VTuple):
